@@ -320,21 +320,29 @@ namespace smt
             auto it = l.vars.cbegin();
             if (!is_integer(it->second) | !is_integer(l.known_term))
                 throw std::invalid_argument("not a valid integer difference logic constraint..");
-            c_lb += lb(it->first) * it->second.numerator() + l.known_term.numerator();
-            c_ub += ub(it->first) * it->second.numerator() + l.known_term.numerator();
+            const I c = it->second.numerator();
+            // a negative coefficient swaps the roles of the two bounds (an infinite bound stays infinite)..
+            const I b_lb = c > 0 ? lb(it->first) : ub(it->first);
+            const I b_ub = c > 0 ? ub(it->first) : lb(it->first);
+            c_lb = b_lb <= -inf() || b_lb >= inf() ? -inf() : b_lb * c + l.known_term.numerator();
+            c_ub = b_ub <= -inf() || b_ub >= inf() ? inf() : b_ub * c + l.known_term.numerator();
             break;
         }
         case 2:
         {
-            const auto expr = l / l.vars.cbegin()->second;
+            const rational cf = l.vars.cbegin()->second; // l = c * (v0 - v1) + k..
+            const auto expr = l / cf;
             auto it = expr.vars.cbegin();
             [[maybe_unused]] const auto [v0, c0] = *it++;
             const auto [v1, c1] = *it;
-            if (!is_integer(c1) || c1.numerator() != -1 || !is_integer(l.known_term))
+            if (!is_integer(c1) || c1.numerator() != -1 || !is_integer(cf) || !is_integer(l.known_term))
                 throw std::invalid_argument("not a valid integer difference logic expression..");
-            const auto dist = distance(v1, v0);
-            c_lb += dist.first + expr.known_term.numerator();
-            c_ub += dist.second + expr.known_term.numerator();
+            const I c = cf.numerator();
+            const auto dist = distance(v1, v0); // the bounds of v0 - v1..
+            const I b_lb = c > 0 ? dist.first : dist.second;
+            const I b_ub = c > 0 ? dist.second : dist.first;
+            c_lb = b_lb <= -inf() || b_lb >= inf() ? -inf() : b_lb * c + l.known_term.numerator();
+            c_ub = b_ub <= -inf() || b_ub >= inf() ? inf() : b_ub * c + l.known_term.numerator();
             break;
         }
         default:
@@ -343,35 +351,7 @@ namespace smt
         return std::make_pair(c_lb, c_ub);
     }
 
-    SMT_EXPORT std::pair<I, I> idl_theory::distance(const lin &from, const lin &to) const
-    {
-        lin expr = from - to;
-        switch (expr.vars.size())
-        {
-        case 0:
-            return std::make_pair(expr.known_term.numerator(), expr.known_term.numerator());
-        case 1:
-        {
-            expr = expr / expr.vars.cbegin()->second;
-            if (!is_integer(expr.known_term))
-                throw std::invalid_argument("not a valid integer difference logic constraint..");
-            return distance(expr.vars.cbegin()->first, 0);
-        }
-        case 2:
-        {
-            expr = expr / expr.vars.cbegin()->second;
-            auto it = expr.vars.cbegin();
-            const auto [v0, c0] = *it++;
-            assert(c0 == rational::ONE);
-            const auto [v1, c1] = *it;
-            if (c1 != -rational::ONE || !is_integer(expr.known_term))
-                throw std::invalid_argument("not a valid real difference logic constraint..");
-            return distance(v0, v1);
-        }
-        default:
-            throw std::invalid_argument("not a valid real difference logic constraint..");
-        }
-    }
+    SMT_EXPORT std::pair<I, I> idl_theory::distance(const lin &from, const lin &to) const { return bounds(to - from); }
 
     SMT_EXPORT bool idl_theory::equates(const lin &l0, const lin &l1) const
     {
@@ -387,14 +367,15 @@ namespace smt
             const auto [lb, ub] = bounds(l0);
             return rational(lb) <= l1.known_term && rational(ub) >= l1.known_term;
         }
-        else if (l0.vars.size() == 1 && l1.vars.size() == 1)
-        {
-            const auto [lb, ub] = distance(l0.vars.cbegin()->first, l1.vars.cbegin()->first);
-            const auto kt = l0.known_term - l1.known_term;
-            return lb + kt <= rational::ZERO && ub + kt >= rational::ZERO;
-        }
         else
-            throw std::invalid_argument("not a valid comparison between real difference logic expressions..");
+        { // the two expressions can be equal iff zero is within the bounds of their difference..
+            const lin diff = l0 - l1;
+            if (!is_integer(diff.known_term) && std::all_of(diff.vars.cbegin(), diff.vars.cend(), [](const auto &t)
+                                                             { return is_integer(t.second); }))
+                return false; // integer variables cannot make up for a fractional constant..
+            const auto [lb, ub] = bounds(diff);
+            return lb <= 0 && ub >= 0;
+        }
     }
 
     bool idl_theory::propagate(const lit &p) noexcept
